@@ -7,7 +7,7 @@
    Anderson: G window = last min(k,m) iterates, factorised window = last min(k,m) residual differences, gamma = LS solution,
    x_aa = sum alpha_i g_i with sum alpha_i = 1.   Not covered by theorems: binary64 rounding (correspondence + oracle). *)
 From Coq Require Import Reals List Arith Lia Lra.
-From Alpaqa Require Import Num NumR Vec LMQR LMQRRing LMQRAlg LMQRLsq LMQRAnd.
+From Alpaqa Require Import Num NumR Vec LMQR LMQRRing LMQRAlg LMQRLsq LMQRAnd LmqrGenLib LmqrGen LmqrGenInst LmqrGenEq.
 Import ListNotations.
 Local Open Scope R_scope.
 
@@ -281,6 +281,97 @@ Theorem C10_anderson_compute_is_documented_combination : forall n a h A rl g r a
 Proof. exact anderson_compute_spec. Qed.
 Print Assumptions C10_anderson_compute_is_documented_combination.
 
+(* ---------------------------------------------------------------- (7) the GENERATED code (translator G12) *)
+(* coq/gen/LmqrGen.v is regenerated from limited-memory-qr.hpp / ringbuffer.hpp / anderson-helpers.hpp / anderson.hpp on every run
+   (translate/gen_lmqr.py); LmqrGenEq.v proves every generated piece equal to the corresponding piece of LMQR.v (obligations
+   g_<definition>_eq), so the theorems above hold for the generated functions run on the raw storage (LmqrGenInst.v):
+   fuelS = reorth_fuel = 64 re-orthogonalisation passes, fuelN = capacity for the index / iterator loops. *)
+Theorem C10_generated_qr_operations_are_the_model : forall n ops (st : qrst R) A x,
+  wf n st -> QRrep st A -> hist_ok n st ops ->
+  fold_left gq_step (map gqop_of ops) (st, x) = (fold_left qstep ops st, x).
+Proof. exact generated_qr_run_is_model_run. Qed.
+Print Assumptions C10_generated_qr_operations_are_the_model.
+
+Theorem C10_generated_solve_col_is_the_model : forall fS (st : qrst R) b x tol,
+  (q_idx st <= cap st)%nat -> (q_idx st <= length x)%nat ->
+  g_solve_col lmqr_ops fS (cap st) st b x tol = solve_col st b tol x.
+Proof. exact (@g_solve_col_eq R _). Qed.
+Print Assumptions C10_generated_solve_col_is_the_model.
+
+Theorem C10_generated_anderson_operations_are_the_model : forall n mem ops (a : aast R) s,
+  FInv n a s -> aa_hist_ok n a ops -> ga_run mem a ops = aa_run a ops.
+Proof. exact generated_anderson_run_is_model_run. Qed.
+Print Assumptions C10_generated_anderson_operations_are_the_model.
+
+(* Q R = A is preserved by the generated add_column / remove_column / scale_R *)
+Theorem C10_gen_add_keeps_QR_eq_A : forall n (fN : nat) (st : qrst R) A v,
+  wf n st -> length v = n -> (q_idx st < cap st)%nat -> QRrep st A -> add_norm st v <> 0 ->
+  QRrep (g_add_column lmqr_ops reorth_fuel fN st v) (A ++ [v]) /\ wf n (g_add_column lmqr_ops reorth_fuel fN st v).
+Proof. exact gen_add_keeps_QR. Qed.
+Print Assumptions C10_gen_add_keeps_QR_eq_A.
+
+Theorem C10_gen_remove_keeps_QR_eq_A_and_upper : forall n (fS : nat) (st : qrst R) A,
+  wf n st -> (0 < q_idx st)%nat -> QRrep st A ->
+  QRrep (g_remove_column lmqr_ops fS (cap st) st) (tl A) /\ wf n (g_remove_column lmqr_ops fS (cap st) st).
+Proof. exact gen_remove_keeps_QR. Qed.
+Print Assumptions C10_gen_remove_keeps_QR_eq_A_and_upper.
+
+Theorem C10_gen_scale_R_spec : forall n (fS : nat) (st : qrst R) A s,
+  wf n st -> QRrep st A ->
+  QRrep (g_scale_R lmqr_ops fS (cap st) st s) (map (vscale s) A) /\ wf n (g_scale_R lmqr_ops fS (cap st) st s).
+Proof. exact gen_scale_R_spec. Qed.
+Print Assumptions C10_gen_scale_R_spec.
+
+(* every history of the generated operations from LimitedMemoryQR(n, m): Q R = A, storage well formed, Q orthonormal *)
+Theorem C10_gen_QR_orthonormal_from_new : forall (n m : nat) ops x,
+  (0 < m)%nat -> hist_ok n (qr_new n m) ops ->
+  let st := fst (fold_left gq_step (map gqop_of ops) (gqr_new n m, x)) in
+  QRrep st (fold_left astep ops []) /\ wf n st /\ Orth n st.
+Proof. exact gen_QR_orth_from_new. Qed.
+Print Assumptions C10_gen_QR_orthonormal_from_new.
+
+(* the generated solve_col = thresholded least squares *)
+Theorem C10_gen_solve_col_thresholded : forall n (fS : nat) (st : qrst R) A b tol x,
+  wf n st -> QRrep st A -> Orth n st -> length b = n -> (q_idx st <= length x)%nat ->
+  (forall i, (i < q_idx st)%nat -> thr st tol i = false -> Rl st i i <> 0) ->
+  let x' := g_solve_col lmqr_ops fS (cap st) st b x tol in
+  (forall i, (q_idx st <= i)%nat -> getv x' i = getv x i) /\
+  forall i, (i < q_idx st)%nat ->
+    (thr st tol i = true -> getv x' i = 0) /\
+    (thr st tol i = false -> dotf n (getv (getc (Qs st) i)) (resid A (q_idx st) b (getv x')) = 0).
+Proof. exact gen_solve_col_thresholded. Qed.
+Print Assumptions C10_gen_solve_col_thresholded.
+
+Theorem C10_gen_solve_col_is_least_squares_minimiser : forall n (fS : nat) (st : qrst R) A b tol x,
+  wf n st -> QRrep st A -> Orth n st -> length b = n -> (q_idx st <= length x)%nat ->
+  (forall i, (i < q_idx st)%nat -> thr st tol i = false /\ Rl st i i <> 0) ->
+  let x' := g_solve_col lmqr_ops fS (cap st) st b x tol in
+  (forall i, (i < q_idx st)%nat -> row_eq n st b x' i) /\
+  (forall j, (j < q_idx st)%nat -> dotf n (Acol A j) (resid A (q_idx st) b (getv x')) = 0) /\
+  (forall cz : nat -> R,
+     dotf n (resid A (q_idx st) b (getv x')) (resid A (q_idx st) b (getv x'))
+     <= dotf n (resid A (q_idx st) b cz) (resid A (q_idx st) b cz)).
+Proof. exact gen_solve_col_least_squares. Qed.
+Print Assumptions C10_gen_solve_col_is_least_squares_minimiser.
+
+(* the generated compute() at a reachable state returns what the model's compute() returns, hence
+   C10_anderson_compute_is_documented_combination applies to it: x_aa = sum alpha_i g_i over the last min(k, m) iterates and g_k,
+   sum alpha_i = 1, gamma = the thresholded least-squares solution *)
+Theorem C10_gen_anderson_compute_is_documented_combination : forall n (mem : nat) (a : aast R) h A rl g r a' x,
+  FInv n a (h, A, rl) -> op_ok n a (PCompute g r) -> ga_step mem a (GACompute g r) = Some (a', x) ->
+  aa_compute a g r = Some (a', x) /\
+  let k := q_idx (a_qr a') in
+  let W := map (fun j => nth (length h - k + j) h []) (seq 0 k) ++ [g] in
+  let α := aa_alphas (a_gamma a') k in
+  lsum α = 1 /\ length α = S k /\ length W = S k /\ (forall t, getv x t = dotl α (map (fun c => getv c t) W)).
+Proof. exact gen_anderson_compute_documented. Qed.
+Print Assumptions C10_gen_anderson_compute_is_documented_combination.
+
+Theorem C10_gen_anderson_all_histories : forall n (mem : nat) ops (a : aast R) s, FInv n a s -> aa_hist_ok n a ops ->
+  exists a', ga_run mem a ops = Some a' /\ FInv n a' (fold_left (abs_step (cap (a_qr a))) ops s) /\ cap (a_qr a') = cap (a_qr a).
+Proof. exact gen_anderson_all_histories. Qed.
+Print Assumptions C10_gen_anderson_all_histories.
+
 (* ---------------------------------------------------------------- non-vacuity *)
 (* a history within capacity that fills a capacity-3 ring, wraps around and removes right after the wrap *)
 Example C10_nonvacuous_ring_history :
@@ -359,4 +450,15 @@ Proof.
   - cbn [op_ok]. split; auto. split; [reflexivity|]. split; [reflexivity|].
     rewrite add_norm_first; [lra | reflexivity | exact vnorm2_diff_e1].
   - destruct (aa_compute_shape a1 [2; 0] [1; 0] Hi) as (x & E). cbv zeta in E. rewrite E. exact I.
+Qed.
+
+(* the hypotheses of the generated-code theorems are satisfiable: the history of C10_nonvacuous_history run by the GENERATED operations *)
+Example C10_nonvacuous_generated :
+  let st := fst (fold_left gq_step (map gqop_of [QAdd [1; 0]; QRem; QAdd [0; 1]; QScale 2]) (gqr_new 2 1, [0])) in
+  QRrep st [[2 * 0; 2 * 1]] /\ Orth 2 st /\ wf 2 st.
+Proof.
+  assert (Hok : hist_ok 2 (qr_new 2 1) [QAdd [1; 0]; QRem; QAdd [0; 1]; QScale 2]).
+  { pose proof C10_nonvacuous_history as H. cbn [hist_ok] in *. tauto. }
+  destruct (gen_QR_orth_from_new 2 1 _ [0] ltac:(lia) Hok) as (H1 & H2 & H3). cbv zeta.
+  split; [|split; assumption]. cbn [fold_left astep app tl map vscale] in H1. numR. exact H1.
 Qed.
